@@ -1,4 +1,6 @@
 import Model.Store
+import Model.DiskFS
+import Proofs.C04
 /-!
 # C15 — every queue storage backend behaves like the same simple store
 
@@ -381,5 +383,330 @@ example : (run .accum init [.write 1 1 [7, 8, 9] 10, .deliver 0 [0], .deliver 0 
     = [.id 0, .unit, .unit, .env 1 1 [8] 0] := by decide
 
 example : Fresh init := by intro p hp; simp [init] at hp
+
+/-! ## The disk backend, effect by effect, refines the store model (C04's model ∘ C15's model)
+
+`Model/DiskFS.lean` describes `DiskStorage` as file-system effects (what C04 cuts at every point); `Model/Store.lean` describes
+every accumulating backend as a table of records (what C15 and C03 reason about). Run without a crash they are the same store:
+after any sequence of complete operations, what a fresh `DiskStorage` recovers from the directories for an id is exactly the
+record the store model holds for it. `envOf e`: sender, content and recipients of the envelope pickled with identity `e`. -/
+section disk
+open Slimta.DiskFS (FS recover)
+
+variable (envOf : Nat → Nat × Nat × List Nat)
+
+def toRec (p : Nat × DiskFS.Meta) : Rec :=
+  ⟨(envOf p.1).1, (envOf p.1).2.1, (envOf p.1).2.2, p.2.delivered, p.2.attempts, p.2.ts, true⟩
+
+def toOp : DiskFS.Op → Op
+  | .write _ e ts => .write (envOf e).1 (envOf e).2.1 (envOf e).2.2 ts
+  | .setTs i ts => .setTs i ts
+  | .incr i => .incr i
+  | .deliver i l => .deliver i l
+  | .remove i => .remove i
+
+/-- The directories and the table hold the same messages. -/
+structure Rel (fs : FS) (s : St) : Prop where
+  same : ∀ i, (recover fs i).map (toRec envOf) = lookup i s.recs
+  fresh : Fresh s
+  nodup : (s.recs.map (·.1)).Nodup
+
+theorem lookup_append_same {i : Nat} (r : Rec) {l : List (Nat × Rec)} (h : lookup i l = none) :
+    lookup i (l ++ [(i, r)]) = some r := by
+  induction l with
+  | nil => simp [lookup]
+  | cons x rest ih =>
+    obtain ⟨a, r'⟩ := x
+    simp only [lookup] at h
+    split at h
+    · simp at h
+    · rename_i hne
+      simp only [List.cons_append, lookup, hne, Bool.false_eq_true, if_false]
+      exact ih h
+
+theorem lookup_update_same (i : Nat) (f : Rec → Rec) (l : List (Nat × Rec)) :
+    lookup i (update i f l) = (lookup i l).map f := by
+  induction l with
+  | nil => rfl
+  | cons x rest ih =>
+    obtain ⟨a, r⟩ := x
+    simp only [update]
+    split
+    · rename_i h; simp [lookup, h]
+    · rename_i h; simp [lookup, h, ih]
+
+theorem lookup_erase_same {i : Nat} {l : List (Nat × Rec)} (h : (l.map (·.1)).Nodup) : lookup i (erase i l) = none := by
+  induction l with
+  | nil => rfl
+  | cons x rest ih =>
+    obtain ⟨a, r⟩ := x
+    simp only [List.map_cons, List.nodup_cons] at h
+    simp only [erase]
+    split
+    · rename_i hai
+      have : a = i := by simpa using hai
+      subst this
+      apply lookup_none_of_not_mem
+      intro p hp hpe
+      exact h.1 (List.mem_map.mpr ⟨p, hp, hpe⟩)
+    · rename_i hai
+      simp only [lookup, hai, Bool.false_eq_true, if_false]
+      exact ih h.2
+
+theorem map_fst_update (i : Nat) (f : Rec → Rec) (l : List (Nat × Rec)) : (update i f l).map (·.1) = l.map (·.1) := by
+  induction l with
+  | nil => rfl
+  | cons x rest ih =>
+    obtain ⟨a, r⟩ := x
+    simp only [update]
+    split <;> simp [ih]
+
+theorem erase_sublist (i : Nat) (l : List (Nat × Rec)) : ((erase i l).map (·.1)).Sublist (l.map (·.1)) := by
+  induction l with
+  | nil => simp [erase]
+  | cons x rest ih =>
+    obtain ⟨a, r⟩ := x
+    simp only [erase]
+    split
+    · simp
+    · simpa using ih
+
+theorem exec_other (fs : FS) (st : C04.Step) (j : Nat) (h : st.op.id ≠ j) : recover (C04.exec fs st) j = recover fs j := by
+  rw [← C04.crashAt_all]; exact C04.crash_in_other_operation fs st.k st.c1 st.c2 st.op j h _
+
+theorem fsGet_applyAll (p : DiskFS.Path) (hp : ∀ k, p ≠ .tmp k) (es : List DiskFS.Effect) (fs : FS)
+    (h : ∀ e ∈ es, C04.target e ≠ p) : DiskFS.fsGet p (DiskFS.applyAll fs es) = DiskFS.fsGet p fs := by
+  induction es generalizing fs with
+  | nil => rfl
+  | cons e rest ih =>
+    simp only [DiskFS.applyAll, List.foldl_cons]
+    have := ih (DiskFS.applyEffect fs e) (fun x hx => h x (by simp [hx]))
+    simp only [DiskFS.applyAll] at this
+    rw [this, C04.fsGet_applyEffect p fs e (h e (by simp)) hp]
+
+/-- A meta update of a message that cannot be recovered (no envelope file, or no meta file) leaves it unrecoverable. -/
+theorem exec_meta_missing (fs : FS) (st : C04.Step) (i : Nat)
+    (hop : st.op = .setTs i (match st.op with | .setTs _ t => t | _ => 0) ∨ st.op = .incr i ∨
+           st.op = .deliver i (match st.op with | .deliver _ l => l | _ => []))
+    (hr : recover fs i = none) : recover (C04.exec fs st) i = none := by
+  have hid : st.op.id = i := by rcases hop with h | h | h <;> (rw [h]; rfl)
+  cases hm : DiskFS.fsGet (.mfile i) fs with
+  | none =>
+    have : DiskFS.effectsOf fs st.k st.c1 st.c2 st.op = [] := by
+      rcases hop with h | h | h <;> (rw [h]; simp only [DiskFS.effectsOf, DiskFS.Op.id, hm])
+    simp [C04.exec, this, DiskFS.applyAll, hr]
+  | some c =>
+    cases c with
+    | envelope e =>
+      have : DiskFS.effectsOf fs st.k st.c1 st.c2 st.op = [] := by
+        rcases hop with h | h | h <;> (rw [h]; simp only [DiskFS.effectsOf, DiskFS.Op.id, hm])
+      simp [C04.exec, this, DiskFS.applyAll, hr]
+    | partialFile n =>
+      have : DiskFS.effectsOf fs st.k st.c1 st.c2 st.op = [] := by
+        rcases hop with h | h | h <;> (rw [h]; simp only [DiskFS.effectsOf, DiskFS.Op.id, hm])
+      simp [C04.exec, this, DiskFS.applyAll, hr]
+    | metaC m =>
+      have heff : DiskFS.effectsOf fs st.k st.c1 st.c2 st.op = DiskFS.dump st.k st.c1 (.mfile i) (.metaC (DiskFS.newMeta m st.op)) := by
+        rcases hop with h | h | h <;> (rw [h]; simp only [DiskFS.effectsOf, DiskFS.Op.id, hm])
+      -- the envelope file is not touched, and it was not an envelope (else the message would have been recoverable)
+      have henv : DiskFS.fsGet (.env i) (C04.exec fs st) = DiskFS.fsGet (.env i) fs := by
+        simp only [C04.exec, heff]
+        apply fsGet_applyAll _ (by intro k; simp)
+        intro e he
+        simp only [DiskFS.dump, List.mem_append, List.mem_singleton, List.mem_replicate] at he
+        rcases he with (rfl | ⟨_, rfl⟩) | rfl <;> simp [C04.target]
+      simp only [recover, hm] at hr
+      simp only [recover, henv]
+      cases he : DiskFS.fsGet (.env i) fs with
+      | none => rfl
+      | some c =>
+        cases c with
+        | envelope e => simp [he] at hr
+        | metaC _ => rfl
+        | partialFile _ => rfl
+
+theorem exec_remove (fs : FS) (k c1 c2 i : Nat) : recover (C04.exec fs ⟨.remove i, k, c1, c2⟩) i = none := by
+  have := C04.crash_in_remove fs k c1 c2 i 2 (by omega)
+  simpa [DiskFS.crashAt, C04.exec, DiskFS.effectsOf] using this
+
+/-- One complete operation of the disk backend is one step of the store model (a `write` gets the id the table hands out next). -/
+theorem disk_step_refines (fs : FS) (s : St) (st : C04.Step) (h : Rel envOf fs s)
+    (hw : ∀ id e ts, st.op = .write id e ts → id = s.next) :
+    Rel envOf (C04.exec fs st) (step .accum s (toOp envOf st.op)).1 := by
+  have hfresh' : Fresh (step .accum s (toOp envOf st.op)).1 := (fresh_step .accum (by decide) s _ h.fresh).1
+  obtain ⟨op, k, c1, c2⟩ := st
+  cases op with
+  | write id e ts =>
+    have hid : id = s.next := hw id e ts rfl
+    subst hid
+    have hnone : lookup s.next s.recs = none := (write_id_fresh .accum s h.fresh 0 0 ts []).2.1
+    refine ⟨fun j => ?_, hfresh', ?_⟩
+    · simp only [toOp, step]
+      by_cases hj : j = s.next
+      · subst hj
+        rw [show recover (C04.exec fs ⟨.write s.next e ts, k, c1, c2⟩) s.next = some (e, ⟨ts, 0, []⟩) from
+          C04.write_complete fs k c1 c2 s.next e ts, lookup_append_same _ hnone]
+        rfl
+      · rw [exec_other fs _ j (by simpa [DiskFS.Op.id] using Ne.symm hj), lookup_append_ne hj]
+        exact h.same j
+    · simp only [toOp, step, List.map_append, List.map_cons, List.map_nil]
+      rw [List.nodup_append]
+      refine ⟨h.nodup, by simp, ?_⟩
+      intro a ha b hb
+      simp only [List.mem_singleton] at hb; subst hb
+      obtain ⟨p, hp, rfl⟩ := List.mem_map.mp ha
+      have := h.fresh p hp
+      omega
+  | remove i =>
+    refine ⟨fun j => ?_, hfresh', ?_⟩
+    · simp only [toOp, step]
+      by_cases hj : j = i
+      · subst hj; rw [exec_remove, lookup_erase_same h.nodup]; rfl
+      · rw [exec_other fs _ j (by simpa [DiskFS.Op.id] using Ne.symm hj), lookup_erase_ne hj]; exact h.same j
+    · simp only [toOp, step]
+      exact List.Nodup.sublist (erase_sublist i s.recs) h.nodup
+  | setTs i ts =>
+    refine ⟨fun j => ?_, hfresh', ?_⟩
+    · by_cases hj : j = i
+      · subst hj
+        have hs := h.same j
+        cases hr : recover fs j with
+        | none =>
+          rw [hr] at hs
+          simp only [Option.map_none] at hs
+          rw [exec_meta_missing fs _ j (Or.inl rfl) hr]
+          simp [toOp, step, ← hs]
+        | some p =>
+          obtain ⟨e, m⟩ := p
+          rw [hr] at hs
+          rw [C04.exec_allowed fs _ j e m (Or.inr (Or.inl rfl)) hr]
+          simp only [toOp, step, ← hs, Option.map_some]
+          simp only [lookup_update_same, ← hs]
+          simp [toRec, DiskFS.Op.id, DiskFS.newMeta]
+      · rw [exec_other fs _ j (by simpa [DiskFS.Op.id] using Ne.symm hj)]
+        simp only [toOp, step]
+        split
+        · simpa using h.same j
+        · rw [lookup_update_ne hj]; exact h.same j
+    · simp only [toOp, step]
+      split
+      · simpa using h.nodup
+      · rw [map_fst_update]; exact h.nodup
+  | incr i =>
+    refine ⟨fun j => ?_, hfresh', ?_⟩
+    · by_cases hj : j = i
+      · subst hj
+        have hs := h.same j
+        cases hr : recover fs j with
+        | none =>
+          rw [hr] at hs
+          simp only [Option.map_none] at hs
+          rw [exec_meta_missing fs _ j (Or.inr (Or.inl rfl)) hr]
+          simp [toOp, step, ← hs]
+        | some p =>
+          obtain ⟨e, m⟩ := p
+          rw [hr] at hs
+          rw [C04.exec_allowed fs _ j e m (Or.inr (Or.inr (Or.inl rfl))) hr]
+          simp only [toOp, step, ← hs, Option.map_some]
+          simp only [lookup_update_same, ← hs]
+          simp [toRec, DiskFS.Op.id, DiskFS.newMeta]
+      · rw [exec_other fs _ j (by simpa [DiskFS.Op.id] using Ne.symm hj)]
+        simp only [toOp, step]
+        split
+        · simpa using h.same j
+        · rw [lookup_update_ne hj]; exact h.same j
+    · simp only [toOp, step]
+      split
+      · simpa using h.nodup
+      · rw [map_fst_update]; exact h.nodup
+  | deliver i l =>
+    refine ⟨fun j => ?_, hfresh', ?_⟩
+    · by_cases hj : j = i
+      · subst hj
+        have hs := h.same j
+        cases hr : recover fs j with
+        | none =>
+          rw [hr] at hs
+          simp only [Option.map_none] at hs
+          rw [exec_meta_missing fs _ j (Or.inr (Or.inr rfl)) hr]
+          simp [toOp, step, ← hs]
+        | some p =>
+          obtain ⟨e, m⟩ := p
+          rw [hr] at hs
+          rw [C04.exec_allowed fs _ j e m (Or.inr (Or.inr (Or.inr rfl))) hr]
+          simp only [toOp, step, ← hs, Option.map_some]
+          simp only [lookup_update_same, ← hs]
+          simp [toRec, DiskFS.Op.id, DiskFS.newMeta]
+      · rw [exec_other fs _ j (by simpa [DiskFS.Op.id] using Ne.symm hj)]
+        simp only [toOp, step]
+        split
+        · simpa using h.same j
+        · rw [lookup_update_ne hj]; exact h.same j
+    · simp only [toOp, step]
+      split
+      · simpa using h.nodup
+      · rw [map_fst_update]; exact h.nodup
+
+/-- The ids of the writes are the ones the table hands out, in order (uuids in the code; the k-th write is message k here). -/
+def SeqIds : Nat → List C04.Step → Prop
+  | _, [] => True
+  | n, st :: rest =>
+    match st.op with
+    | .write id _ _ => id = n ∧ SeqIds (n + 1) rest
+    | _ => SeqIds n rest
+
+theorem rel_init : Rel envOf [] init :=
+  ⟨fun i => by simp [recover, DiskFS.fsGet, init, lookup], by intro p hp; simp [init] at hp, by simp [init]⟩
+
+theorem run_fst_cons (k : Kind) (s : St) (op : Op) (ops : List Op) : (run k s (op :: ops)).1 = (run k (step k s op).1 ops).1 := by
+  simp [run]
+
+/-- **The disk backend refines the store model** over every history of complete operations. -/
+theorem disk_refines_store (l : List C04.Step) (fs : FS) (s : St) (h : Rel envOf fs s) (hs : SeqIds s.next l) :
+    Rel envOf (C04.execAll fs l) (run .accum s (l.map fun st => toOp envOf st.op)).1 := by
+  induction l generalizing fs s with
+  | nil => simpa [C04.execAll, run] using h
+  | cons st rest ih =>
+    simp only [C04.execAll, List.foldl_cons, List.map_cons, run_fst_cons]
+    have hstep := disk_step_refines envOf fs s st h (by
+      intro id e ts hop
+      simp only [SeqIds, hop] at hs
+      exact hs.1)
+    apply ih _ _ hstep
+    obtain ⟨op, k, c1, c2⟩ := st
+    cases op <;> simp only [SeqIds] at hs <;> simp only [toOp, step]
+    · exact hs.2
+    · split <;> exact hs
+    · split <;> exact hs
+    · split <;> exact hs
+    · exact hs
+
+/-- **What a fresh `DiskStorage` shows for a message is what the reference store shows** (C04's model ∘ C15 ∘ C03): after every
+    history of complete disk operations, for every id, the recipients `get` returns from the directories — the pickled envelope's
+    recipients with the accumulated delivered indexes replayed — the attempt counter and the due time are those of the in-place
+    reference store after the same operations; an id is recoverable from the directories exactly when the reference store has it. -/
+theorem disk_get_is_reference_get (l : List C04.Step) (hs : SeqIds 0 l) (i : Nat) :
+    (recover (C04.execAll [] l) i).map (fun p => (delSeq p.2.delivered (envOf p.1).2.2, p.2.attempts, p.2.ts)) =
+    (lookup i (run .inplace init (l.map fun st => toOp envOf st.op)).1.recs).map (fun r => (r.rcpts, r.attempts, r.ts)) := by
+  have hrel := disk_refines_store envOf l [] init (rel_init envOf) (by simpa [init] using hs)
+  have href := (accum_refines_reference (l.map fun st => toOp envOf st.op) init).2
+  have hinit : absSt init = init := by simp [absSt, init]
+  rw [hinit] at href
+  rw [href]
+  simp only [absSt, lookup_map, ← hrel.same i, Option.map_map]
+  cases recover (C04.execAll [] l) i with
+  | none => rfl
+  | some p => simp [toRec, absRec]
+
+/-- non-vacuity: two messages; the first gets two delivered rounds (positions of the recipient list as it stands), an attempt
+    and a new due time; the second is removed -/
+def demoEnvOf : Nat → Nat × Nat × List Nat := fun e => (1, 2, if e = 9 then [10, 11, 12, 13] else [20])
+def demoDisk : List C04.Step := [⟨.write 0 9 100, 0, 2, 1⟩, ⟨.write 1 8 100, 2, 1, 1⟩, ⟨.deliver 0 [0, 2], 4, 1, 0⟩, ⟨.incr 0, 6, 1, 0⟩,
+  ⟨.deliver 0 [1], 8, 1, 0⟩, ⟨.setTs 0 300, 10, 1, 0⟩, ⟨.remove 1, 0, 0, 0⟩]
+example : SeqIds 0 demoDisk := by simp [SeqIds, demoDisk]
+example : (recover (C04.execAll [] demoDisk) 0).map (fun p => (delSeq p.2.delivered (demoEnvOf p.1).2.2, p.2.attempts, p.2.ts))
+      = some ([11], 1, 300) ∧ recover (C04.execAll [] demoDisk) 1 = none := by decide
+
+end disk
 
 end Slimta.C15
